@@ -55,8 +55,7 @@ CONFIGS = {
     'tracelog': {'defs': ['NDEBUG'], 'vm': 'direct', 'units': ['gr_logging.cpp']},
     # ... and the two API units that take tags (C20 / C18 TAGNORM: a tracing-only branch must normalise too)
     'traceapi': {'defs': ['NDEBUG'], 'vm': 'direct', 'units': ['gr_face.cpp', 'gr_segment.cpp', 'Face.cpp']},
-    'tele':     {'defs': ['GRAPHITE2_NTRACING', 'NDEBUG', 'GRAPHITE2_TELEMETRY'], 'vm': 'direct',
-                 'units': ['gr_face.cpp', 'Face.cpp', 'Pass.cpp', 'Code.cpp', 'gr_logging.cpp']},
+    'tele':     {'defs': ['GRAPHITE2_NTRACING', 'NDEBUG', 'GRAPHITE2_TELEMETRY'], 'vm': 'direct'},      # every unit: a guard in a shaping function is what the rule looks for
 }
 
 
